@@ -257,7 +257,7 @@ void frames(Ctx& ctx, int listFrom, int listTo)
 	for (int len = listFrom; len < listTo; ++len) for (int count = 0; count < 128; ++count) for (int flag = 0; flag < 2; ++flag) {
 		ArtFile a = base;
 		auto& f = a.animations[0].frames[0];
-		f.layers.assign(std::size_t(len), Animation::Frame::Layer{ 7, 1, 2, { 3, 4 } });
+		f.layers.assign(std::size_t(len), Animation::Frame::Layer{ 0, 1, 2, { 3, 4 } });
 		f.layerMetadata.count = uint8_t(count); f.layerMetadata.bReadOptionalData = uint8_t(flag);
 		std::vector<uint8_t> out;
 		auto o = mc::guarded([&] { out = prtc::writeArt(a); });
@@ -284,7 +284,7 @@ void framesModulo(Ctx& ctx)
 		int len = count + add;
 		ArtFile a = base;
 		auto& f = a.animations[0].frames[0];
-		f.layers.assign(std::size_t(len), Animation::Frame::Layer{ 7, 1, 2, { 3, 4 } });
+		f.layers.assign(std::size_t(len), Animation::Frame::Layer{ 0, 1, 2, { 3, 4 } });
 		f.layerMetadata.count = uint8_t(count); f.layerMetadata.bReadOptionalData = uint8_t(flag);
 		auto o = mc::guarded([&] { prtc::writeArt(a); });
 		ctx.transition();
@@ -300,8 +300,8 @@ void framesModulo(Ctx& ctx)
 		else for (auto pr : std::vector<std::array<int, 4>>{ { 1, 3, 3, 1 }, { 0, 2, 2, 0 }, { 3, 130, 127, 0 }, { 2, 1, 1, 2 }, { 5, 4, 4, 5 } }) {
 			ArtFile a = two;
 			auto& f0 = a.animations[0].frames[0]; auto& f1 = a.animations[0].frames[1];
-			f0.layerMetadata.count = uint8_t(pr[0]); f0.layers.assign(std::size_t(pr[1]), Animation::Frame::Layer{ 7, 1, 2, { 3, 4 } });
-			f1.layerMetadata.count = uint8_t(pr[2]); f1.layers.assign(std::size_t(pr[3]), Animation::Frame::Layer{ 7, 1, 2, { 3, 4 } });
+			f0.layerMetadata.count = uint8_t(pr[0]); f0.layers.assign(std::size_t(pr[1]), Animation::Frame::Layer{ 0, 1, 2, { 3, 4 } });
+			f1.layerMetadata.count = uint8_t(pr[2]); f1.layers.assign(std::size_t(pr[3]), Animation::Frame::Layer{ 0, 1, 2, { 3, 4 } });
 			auto o = mc::guarded([&] { prtc::writeArt(a); });
 			ctx.transition();
 			std::string key = "two frames: count " + std::to_string(pr[0]) + " with " + std::to_string(pr[1]) + " layers, count " + std::to_string(pr[2]) + " with " + std::to_string(pr[3]) + " layers (the sums agree)";
